@@ -76,17 +76,41 @@ Definition claims_margin (v : verifier) (c : claims) (now0 now1 : Z) : bool :=
       || (Z.ltb 0 (c_auth_time c)
           && Z.leb (now1 - v_max_age v + one_second) (c_auth_time c * ns))).
 
-(* a present at_hash is the base64url left half of the hash (chosen by the
-   signature algorithm) of exactly this access token *)
+(* Ground truth, independent of the verifier: the hash that belongs to a
+   signature algorithm is the one named by its suffix (OIDC Core 3.1.3.6: "the hash
+   algorithm used in the alg header"), for the HMAC family as well; EdDSA: SHA-512. *)
+Definition spec_hash (alg : string) : option hkind :=
+  if string_in alg ["RS256"; "PS256"; "ES256"; "HS256"] then Some H256
+  else if string_in alg ["RS384"; "PS384"; "ES384"; "HS384"] then Some H384
+  else if string_in alg ["RS512"; "PS512"; "ES512"; "HS512"; "EdDSA"] then Some H512
+  else None.
+
+(* soundness: a present at_hash is the base64url left half of that hash of exactly
+   this access token - whatever the algorithm; no known hash, no acceptance *)
 Definition at_hash_ok (atk : option atoken) (c : claims) (alg : string) : bool :=
   match atk with
   | None => true
   | Some a =>
       (c_at_hash c =s "")
-      || match hash_of_alg alg with
+      || match spec_hash alg with
          | Some h => c_at_hash c =s b64_encode (left_half (digest_of a h))
          | None => false
          end
+  end.
+
+(* completeness is demanded for the asymmetric algorithms only: refusing an HS*
+   token that carries an at_hash (the library knows no hash for HS*: fail closed)
+   is not counted as a false rejection *)
+Definition at_hash_must_accept (atk : option atoken) (c : claims) (alg : string) : bool :=
+  match atk with
+  | None => true
+  | Some a =>
+      (c_at_hash c =s "")
+      || (negb (prefix "HS" alg)
+          && match spec_hash alg with
+             | Some h => c_at_hash c =s b64_encode (left_half (digest_of a h))
+             | None => false
+             end)
   end.
 
 Definition spec (i : input) (o : observed) : bool :=
@@ -99,7 +123,7 @@ Definition spec (i : input) (o : observed) : bool :=
   | IIDToken v ks t (MidOk bytes c) atk now0 now1, OOut (Reject _) =>
       negb (claims_margin v c now0 now1
             && sig_complete (v_algs v) ks t bytes
-            && at_hash_ok atk c (sig_alg t))
+            && at_hash_must_accept atk c (sig_alg t))
   | IIDToken _ _ _ _ _ _ _, OOut (Reject _) => true
   | _, _ => false
   end.
